@@ -196,3 +196,191 @@ Example C18_F8_witness_binary64 :
     = Ok (0x1.63ac929aa1d76p-3%float, 0.5%float, 0%float) /\
   PrimFloat.ltb 0.0005%float (PrimFloat.sub 0x1.64d7f0ed3d85ap-3 0x1.63ac929aa1d76p-3)%float = true.
 Proof. vm_compute. repeat split; reflexivity. Qed.
+
+(* ===== continuity across a knot for lookups 8 ns apart (rounded lookup, explicit rounding term) — imported from Recon/DriftCont_pins.v ===== *)
+(* C18 — continuity of the drift lookup across a knot: pinned statements (proofs: Recon/DriftCont_proofs.v).
+   Setting as in Props/C18.v.  Knots (tm, rm), (tk, rk), (tp, rp) are three consecutive entries of one table;
+   t1 lies in the left segment [tm, tk], t2 in the right segment [tk, tp]; h1 = tk - tm, h2 = tp - tk.
+   `exact_lerp lt rt lhs rhs t` = lhs + (t - lt) / (rt - lt) * (rhs - lhs) is the interpolation without rounding. *)
+From Coq Require Import Reals.
+From Flocq Require Import Core.
+From AG Require Import Base.Prelude Base.Res Base.Bytes Recon.Drift Recon.DriftR Recon.DriftR_proofs
+  Recon.Drift_proofs Recon.DriftCont Recon.DriftCont_proofs Gen.Drift.
+Local Open Scope R_scope.
+
+(* exact interpolation: two times at most min(h1, h2) apart that straddle the knot tk differ in radius by at most
+   the LARGER (not the sum) of the two tabulated steps *)
+Theorem C18_knot_straddle_real : forall tm tk tp rm rk rp t1 t2,
+  tm < tk -> tk < tp -> rk <= rm -> rp <= rk ->
+  tm <= t1 <= tk -> tk <= t2 <= tp -> t2 - t1 <= Rmin (tk - tm) (tp - tk) ->
+  0 <= exact_lerp tm tk rm rk t1 - exact_lerp tk tp rk rp t2 <= Rmax (rm - rk) (rk - rp).
+Proof. exact knot_straddle_real. Qed.
+Print Assumptions C18_knot_straddle_real.
+
+(* ... for uniformly spaced knots *)
+Theorem C18_knot_straddle_real_uniform : forall tm tk tp rm rk rp t1 t2 h,
+  0 < h -> tk - tm = h -> tp - tk = h -> rk <= rm -> rp <= rk ->
+  tm <= t1 <= tk -> tk <= t2 <= tp -> t2 - t1 <= h ->
+  0 <= exact_lerp tm tk rm rk t1 - exact_lerp tk tp rk rp t2 <= Rmax (rm - rk) (rk - rp).
+Proof. exact knot_straddle_real_uniform. Qed.
+Print Assumptions C18_knot_straddle_real_uniform.
+
+(* ... and scaled: t2 - t1 <= c * min(h1, h2) gives c * max step (used for "exactly 8 ns apart" on tables whose
+   spacing is 8 ns only up to rounding) *)
+Theorem C18_knot_straddle_real_scaled : forall tm tk tp rm rk rp t1 t2 c,
+  tm < tk -> tk < tp -> rk <= rm -> rp <= rk ->
+  tm <= t1 <= tk -> tk <= t2 <= tp -> t2 - t1 <= c * Rmin (tk - tm) (tp - tk) ->
+  0 <= exact_lerp tm tk rm rk t1 - exact_lerp tk tp rk rp t2 <= c * Rmax (rm - rk) (rk - rp).
+Proof. exact knot_straddle_real_scaled. Qed.
+Print Assumptions C18_knot_straddle_real_scaled.
+
+(* ---------- the algorithm of the implementation: lookupR = DriftTables::at over R with rnd64 after every operation ----------
+   u64 = 2^-53, eta64 = 2^-1075;  straddle_eps u eta B s1 s2 = u * (2 B + 9 (s1 + s2)) + 4 eta.
+   Knot k of the slice of z (1 <= k, k + 1 < number of knots); t1 in [t_(k-1), t_k], t2 in [t_k, t_(k+1)];
+   all radii of the slice within [0, B]; knot spacing not absurdly small (eta64 <= u64 * min(h1, h2), i.e.
+   min(h1, h2) >= 2^-1022).  Then for lookups at most min(h1, h2) apart the radius changes by at most the LARGER of
+   the two tabulated steps plus the rounding term. *)
+Theorem C18_knot_straddle : forall m ts z s k t1 t2 r1 c1 r2 c2 B,
+  tables_ok fmt64 ts -> is_slice ts z s -> (1 <= k)%nat -> (S k < length (fst s))%nat ->
+  (forall kn, In kn (fst s) -> 0 <= rk_radius kn <= B) ->
+  rk_time (knot_at s (k - 1)) <= t1 <= rk_time (knot_at s k) ->
+  rk_time (knot_at s k) <= t2 <= rk_time (knot_at s (S k)) ->
+  t2 - t1 <= Rmin (rk_time (knot_at s k) - rk_time (knot_at s (k - 1)))
+                  (rk_time (knot_at s (S k)) - rk_time (knot_at s k)) ->
+  eta64 <= u64 * Rmin (rk_time (knot_at s k) - rk_time (knot_at s (k - 1)))
+                      (rk_time (knot_at s (S k)) - rk_time (knot_at s k)) ->
+  lookupR m ts z t1 = Ok (r1, c1) -> lookupR m ts z t2 = Ok (r2, c2) ->
+  0 <= r1 - r2 <=
+    Rmax (rk_radius (knot_at s (k - 1)) - rk_radius (knot_at s k))
+         (rk_radius (knot_at s k) - rk_radius (knot_at s (S k)))
+    + straddle_eps u64 eta64 B (rk_radius (knot_at s (k - 1)) - rk_radius (knot_at s k))
+                               (rk_radius (knot_at s k) - rk_radius (knot_at s (S k))).
+Proof. exact knot_straddle_lemma. Qed.
+Print Assumptions C18_knot_straddle.
+
+(* ... scaled: t2 - t1 <= c * min(h1, h2) gives c * max step + the same rounding term *)
+Theorem C18_knot_straddle_scaled : forall m ts z s k t1 t2 r1 c1 r2 c2 B c,
+  tables_ok fmt64 ts -> is_slice ts z s -> (1 <= k)%nat -> (S k < length (fst s))%nat ->
+  (forall kn, In kn (fst s) -> 0 <= rk_radius kn <= B) ->
+  rk_time (knot_at s (k - 1)) <= t1 <= rk_time (knot_at s k) ->
+  rk_time (knot_at s k) <= t2 <= rk_time (knot_at s (S k)) ->
+  t2 - t1 <= c * Rmin (rk_time (knot_at s k) - rk_time (knot_at s (k - 1)))
+                      (rk_time (knot_at s (S k)) - rk_time (knot_at s k)) ->
+  eta64 <= u64 * Rmin (rk_time (knot_at s k) - rk_time (knot_at s (k - 1)))
+                      (rk_time (knot_at s (S k)) - rk_time (knot_at s k)) ->
+  lookupR m ts z t1 = Ok (r1, c1) -> lookupR m ts z t2 = Ok (r2, c2) ->
+  0 <= r1 - r2 <=
+    c * Rmax (rk_radius (knot_at s (k - 1)) - rk_radius (knot_at s k))
+             (rk_radius (knot_at s k) - rk_radius (knot_at s (S k)))
+    + straddle_eps u64 eta64 B (rk_radius (knot_at s (k - 1)) - rk_radius (knot_at s k))
+                               (rk_radius (knot_at s k) - rk_radius (knot_at s (S k))).
+Proof. exact knot_straddle_scaled_lemma. Qed.
+Print Assumptions C18_knot_straddle_scaled.
+
+(* the error model used: binary64 round-to-nearest-even with gradual underflow (Flocq error_N_FLT) *)
+Theorem C18_rnd64_err : forall x, Rabs (rnd64 x - x) <= u64 * Rabs x + eta64.
+Proof. exact rnd64_err. Qed.
+Print Assumptions C18_rnd64_err.
+
+(* one lookup against the exact interpolation of its segment, for any rounding satisfying the laws of
+   Section Rounded and the error model with 0 <= eta <= u <= 1/8 (instantiated above with rnd64, u64, eta64):
+   |computed - exact| <= lerp_eps u eta B step = u * (B + 9 step) + 2 eta *)
+Theorem C18_table_at_exact_err : forall (rnd : R -> R) (fmt : R -> Prop),
+  (forall x y, x <= y -> rnd x <= rnd y) -> (forall x, fmt x -> rnd x = x) -> (forall x, fmt (rnd x)) ->
+  fmt 0 -> fmt 1 -> (forall x y, fmt x -> fmt y -> x < y -> 0 < rnd (y - x)) ->
+  forall u eta, 0 <= u <= / 8 -> 0 <= eta <= u -> (forall x, Rabs (rnd x - x) <= u * Rabs x + eta) ->
+  forall m tb j t r c B,
+  table_ok fmt tb -> (1 <= j)%nat -> (j < length tb)%nat ->
+  rk_time (nth (j - 1) tb rk0) <= t <= rk_time (nth j tb rk0) ->
+  0 <= rk_radius (nth j tb rk0) -> rk_radius (nth (j - 1) tb rk0) <= B ->
+  eta <= u * (rk_time (nth j tb rk0) - rk_time (nth (j - 1) tb rk0)) ->
+  table_at (real_arith rnd) m tb t = Ok (r, c) ->
+  Rabs (r - exact_lerp (rk_time (nth (j - 1) tb rk0)) (rk_time (nth j tb rk0))
+                       (rk_radius (nth (j - 1) tb rk0)) (rk_radius (nth j tb rk0)) t)
+  <= lerp_eps u eta B (rk_radius (nth (j - 1) tb rk0) - rk_radius (nth j tb rk0)).
+Proof. exact table_at_exact_err. Qed.
+Print Assumptions C18_table_at_exact_err.
+
+(* ---------- the tables of the current source (facts by vm_compute, re-proved on every build) ---------- *)
+(* knot spacing: every two adjacent tabulated times are 8 ns apart to within 1e-21 s.  The spacing is NOT exactly
+   uniform: the times are the binary64 roundings of j * 8e-9 (observed: 8e-9 - 2.5e-22 .. 8e-9 + 6.1e-22). *)
+Theorem C18_spacings_okb_current : spacings_okb d_tables = true.
+Proof. exact spacings_okb_current. Qed.
+Print Assumptions C18_spacings_okb_current.
+
+Theorem C18_spacing_current : forall i j sd a b,
+  nth_error d_tables i = Some sd -> nth_error (fst sd) j = Some a -> nth_error (fst sd) (S j) = Some b ->
+  7999999999999 / 1000000000000000000000 <= dyR (dk_time b) - dyR (dk_time a)
+    <= 8000000000001 / 1000000000000000000000.
+Proof. exact spacing_current_lemma. Qed.
+Print Assumptions C18_spacing_current.
+
+(* every tabulated radius lies in [0, 1/4] m *)
+Theorem C18_radius_current : forall i sd a,
+  nth_error d_tables i = Some sd -> In a (fst sd) -> 0 <= dyR (dk_radius a) <= 1 / 4.
+Proof. exact radius_current_lemma. Qed.
+Print Assumptions C18_radius_current.
+
+(* the rounding term on the current tables is below 6e-17 m *)
+Theorem C18_straddle_eps_current : forall s1 s2,
+  0 <= s1 < 66 / 100000 -> 0 <= s2 < 66 / 100000 ->
+  straddle_eps u64 eta64 (1 / 4) s1 s2 <= 6 / 100000000000000000.
+Proof. exact straddle_eps_current. Qed.
+Print Assumptions C18_straddle_eps_current.
+
+(* adjacent segments j, j+1 of table i (knots a, b, c): t2 - t1 <= cc * min(h1, h2) gives cc * max step + 6e-17 m *)
+Theorem C18_straddle_current_scaled : forall m i j sd a b c z t1 t2 r1 c1 r2 c2 cc,
+  nth_error d_tables i = Some sd ->
+  nth_error (fst sd) j = Some a -> nth_error (fst sd) (S j) = Some b -> nth_error (fst sd) (S (S j)) = Some c ->
+  is_slice r_tables z (map dknotR (fst sd), dyR (snd sd)) ->
+  dyR (dk_time a) <= t1 <= dyR (dk_time b) -> dyR (dk_time b) <= t2 <= dyR (dk_time c) ->
+  t2 - t1 <= cc * Rmin (dyR (dk_time b) - dyR (dk_time a)) (dyR (dk_time c) - dyR (dk_time b)) ->
+  lookupR m r_tables z t1 = Ok (r1, c1) -> lookupR m r_tables z t2 = Ok (r2, c2) ->
+  0 <= dyR (dk_radius a) - dyR (dk_radius b) /\ 0 <= dyR (dk_radius b) - dyR (dk_radius c) /\
+  0 <= r1 - r2 <=
+    cc * Rmax (dyR (dk_radius a) - dyR (dk_radius b)) (dyR (dk_radius b) - dyR (dk_radius c))
+    + 6 / 100000000000000000.
+Proof. exact straddle_current_scaled_lemma. Qed.
+Print Assumptions C18_straddle_current_scaled.
+
+(* lookups that straddle a knot, at most min(h1, h2) apart, neither touched segment in the known class F8:
+   the radius changes by less than 0.5 mm + 1e-15 m (complements C18_half_mm_outside_known_partial, which covers
+   two lookups inside ONE segment) *)
+Theorem C18_half_mm_straddle : forall m i j sd a b c z t1 t2 r1 c1 r2 c2,
+  nth_error d_tables i = Some sd ->
+  nth_error (fst sd) j = Some a -> nth_error (fst sd) (S j) = Some b -> nth_error (fst sd) (S (S j)) = Some c ->
+  ~ In (N.of_nat i, N.of_nat j) known_steps -> ~ In (N.of_nat i, N.of_nat (S j)) known_steps ->
+  is_slice r_tables z (map dknotR (fst sd), dyR (snd sd)) ->
+  dyR (dk_time a) <= t1 <= dyR (dk_time b) -> dyR (dk_time b) <= t2 <= dyR (dk_time c) ->
+  t2 - t1 <= Rmin (dyR (dk_time b) - dyR (dk_time a)) (dyR (dk_time c) - dyR (dk_time b)) ->
+  lookupR m r_tables z t1 = Ok (r1, c1) -> lookupR m r_tables z t2 = Ok (r2, c2) ->
+  0 <= r1 - r2 < 5 / 10000 + 1 / 1000000000000000.
+Proof. exact half_mm_straddle_lemma. Qed.
+Print Assumptions C18_half_mm_straddle.
+
+(* ... the same for lookups at most 8 ns apart (8e-9 may exceed min(h1, h2) by up to 1e-21 s; the scaled bound
+   absorbs it: 8e-9 / (8e-9 - 1e-21) * 0.5 mm < 0.5 mm + 7e-17 m) *)
+Theorem C18_half_mm_straddle_8ns : forall m i j sd a b c z t1 t2 r1 c1 r2 c2,
+  nth_error d_tables i = Some sd ->
+  nth_error (fst sd) j = Some a -> nth_error (fst sd) (S j) = Some b -> nth_error (fst sd) (S (S j)) = Some c ->
+  ~ In (N.of_nat i, N.of_nat j) known_steps -> ~ In (N.of_nat i, N.of_nat (S j)) known_steps ->
+  is_slice r_tables z (map dknotR (fst sd), dyR (snd sd)) ->
+  dyR (dk_time a) <= t1 <= dyR (dk_time b) -> dyR (dk_time b) <= t2 <= dyR (dk_time c) ->
+  t2 - t1 <= 8 / 1000000000 ->
+  lookupR m r_tables z t1 = Ok (r1, c1) -> lookupR m r_tables z t2 = Ok (r2, c2) ->
+  0 <= r1 - r2 < 5 / 10000 + 1 / 1000000000000000.
+Proof. exact half_mm_straddle_8ns_lemma. Qed.
+Print Assumptions C18_half_mm_straddle_8ns.
+
+(* ... and for EVERY pair of adjacent segments (known class included): less than 0.66 mm + 1e-15 m *)
+Theorem C18_straddle_lt_066_mm_8ns : forall m i j sd a b c z t1 t2 r1 c1 r2 c2,
+  nth_error d_tables i = Some sd ->
+  nth_error (fst sd) j = Some a -> nth_error (fst sd) (S j) = Some b -> nth_error (fst sd) (S (S j)) = Some c ->
+  is_slice r_tables z (map dknotR (fst sd), dyR (snd sd)) ->
+  dyR (dk_time a) <= t1 <= dyR (dk_time b) -> dyR (dk_time b) <= t2 <= dyR (dk_time c) ->
+  t2 - t1 <= 8 / 1000000000 ->
+  lookupR m r_tables z t1 = Ok (r1, c1) -> lookupR m r_tables z t2 = Ok (r2, c2) ->
+  0 <= r1 - r2 < 66 / 100000 + 1 / 1000000000000000.
+Proof. exact straddle_lt_066_mm_8ns_lemma. Qed.
+Print Assumptions C18_straddle_lt_066_mm_8ns.
+
